@@ -97,8 +97,26 @@ func (e *Exec) computeOrdinals(body *ast.BlockStmt, info *types.Info) {
 
 func (e *Exec) topEnv(cur *State) *SpecEnv {
 	fr := e.frames[0]
-	return &SpecEnv{cur: cur, old: e.old, names: map[string]boundVar{}, pkg: e.fi.pkg, sf: e.sf,
+	env := &SpecEnv{cur: cur, old: e.old, names: map[string]boundVar{}, pkg: e.fi.pkg, sf: e.sf,
 		scopePos: fr.scopePos, entry: fr.entry, entryT: fr.entryT}
+	// range index ghosts of loops that have run: $i<k> visible as idx<k> (value when the loop was left)
+	if cur != nil {
+		for k, v := range cur.vars {
+			if ks, ok := k.(string); ok && strings.HasPrefix(ks, "$i") {
+				env.names["idx"+ks[2:]] = boundVar{v, tInt}
+			}
+		}
+		// range loops that have not run on this path: index 0
+		for st, k := range e.loopOrd {
+			if _, isRange := st.(*ast.RangeStmt); isRange {
+				n := fmt.Sprintf("idx%d", k)
+				if _, ok := env.names[n]; !ok {
+					env.names[n] = boundVar{iv("0"), tInt}
+				}
+			}
+		}
+	}
+	return env
 }
 
 func (e *Exec) loopEnv() *SpecEnv {
@@ -966,6 +984,10 @@ func (e *Exec) applyExtern(fn *types.Func, es *ExternSpec, f FuncV, args []Val, 
 		e.havocLocs(sets)
 		na := e.fresh("alloc", SInt)
 		e.addFact(sx(">=", na, e.st.alloc))
+		if fn.Pkg() == nil || !strings.HasPrefix(fn.Pkg().Path(), modPath) {
+			// whatever code outside the module allocates holds no go-libp2p struct state
+			e.addFact(fmt.Sprintf("(forall ((q!a Int)) (! (=> (and (< %s q!a) (<= q!a %s)) (not (foreign q!a))) :pattern ((foreign q!a))))", e.st.alloc, na))
+		}
 		e.st.alloc = na
 		res = e.havocResult(fn.Name(), resT)
 		if es.Fresh && res != nil {
@@ -974,7 +996,7 @@ func (e *Exec) applyExtern(fn *types.Func, es *ExternSpec, f FuncV, args []Val, 
 			}
 			if sl, ok := res.(SliceV); ok {
 				// a freshly allocated backing array (writes to it need no frame condition)
-				sl.Base = e.allocRef("fresharr")
+				sl.Base = e.allocForeign("fresharr")
 				sl.Off = "0"
 				res = sl
 			}
